@@ -94,6 +94,9 @@ func runC08(seed int64, n int, long bool) {
 		runC08ReadInterleave(seed, rounds)
 	}
 	if len(sum.Failures) == 0 {
+		runC08TraceShapes(seed)
+	}
+	if len(sum.Failures) == 0 {
 		runC08StoreInterleave()
 	}
 	if len(sum.Failures) == 0 {
@@ -1137,6 +1140,11 @@ func runC09(seed int64, n int, long bool) {
 		return
 	}
 	defer os.RemoveAll(dir)
+	// a write that is acknowledged is ONE durable unit: one statement or one transaction
+	traceShapes(seed, "c09-not-atomic", true)
+	if len(sum.Failures) > 0 {
+		return
+	}
 	self, _ := os.Executable()
 	caseNo := 0
 	recovered := func(path string, what string, wl int, acked int, checkContent bool) {
